@@ -331,27 +331,25 @@ class Flow:
                     self.last_nodes.append(e)
                     # the path also depends on its prefixes' definitions: none
                     return
-                for d, suffix in rds:
+                def handle(d, suffix):
                     if (d.id, suffix) in _seen:
-                        continue
+                        return
                     _seen.add((d.id, suffix))
                     if d.kind == "param":
                         out.add(("param", d.path + suffix))
                         self.last_nodes.append(e)
                     elif d.kind == "aug":
                         visit(d.value.value, d.at)
-                        # previous value
+                        # the previous value(s), through chains of augmented assignments
                         for d2, s2 in self.rd(d.path, d.at):
-                            if (d2.id, s2) not in _seen:
-                                _seen.add((d2.id, s2))
-                                if d2.value is not None and isinstance(d2.value, ast.expr):
-                                    visit(d2.value, d2.at)
-                                elif d2.kind == "param":
-                                    out.add(("param", d2.path))
+                            handle(d2, s2)
                     elif d.value is not None and isinstance(d.value, ast.expr):
                         visit(d.value, d.at)
                     else:
                         out.add((d.kind, d.path))
+
+                for d, suffix in rds:
+                    handle(d, suffix)
                 if isinstance(e, ast.Subscript) and not isinstance(e.slice, ast.Constant):
                     visit(e.slice, at)
                 return
